@@ -36,6 +36,11 @@ def seeded(rng, nco, nsteps):
             else:
                 p.append({"a": "body", "c": c, "step": "park", "d": rng.randint(1, 3)})
         p.append({"a": "body", "c": c, "step": rng.choice(["return", "return", "panic"]), "d": 0})
+        # cancel requests made from inside a run slice (Scheduler!Iter, parameter sc): for the running coroutine
+        # itself or for another one, just before the step that ends the slice
+        for st in p:
+            if rng.random() < 0.12:
+                st["cancel"] = c if rng.random() < 0.6 else rng.randint(1, nco)
         progs[c] = p
     order = list(range(1, nco + 1))
     rng.shuffle(order)
@@ -67,9 +72,11 @@ def run(pid, tier):
     wd = workdir(pid)
     cov = {}
     bindir = build_harness()
-    insts = [("MC_Scheduler.cfg", None), ("MC_Scheduler_stale.cfg", "NoViolation")]
+    insts = [("MC_Scheduler.cfg", None), ("MC_Scheduler_stale.cfg", "NoViolation"),
+             ("MC_Scheduler_cancel_forgotten_on_yield.cfg", "NoViolation")]
     if tier == "thorough":
         insts.append(("MC_Scheduler_k3.cfg", None))
+        insts.append(("MC_Scheduler_ops14.cfg", None))
     mc_runs("Scheduler", insts, tier, cov)
     thorough = tier == "thorough"
     rng = random.Random(seed() * 17 + 10)
